@@ -46,8 +46,8 @@ type Case struct {
 }
 
 func cl(c primitive.ConsistencyLevel) *primitive.ConsistencyLevel { return &c }
-func i64(v int64) *int64                                           { return &v }
-func i32(v int32) *int32                                           { return &v }
+func i64(v int64) *int64                                          { return &v }
+func i32(v int32) *int32                                          { return &v }
 
 func val(b ...byte) *primitive.Value {
 	if b == nil {
@@ -498,10 +498,11 @@ var (
 
 var stringAlts = []string{"", "a", "é✓", rep("x", 255), rep("y", 256)}
 var bigString = rep("z", 65535)
+var halfString = rep("h", 32768)
 var int32Alts = []int32{0, 1, -1, -2147483648, 2147483647, 127, 128, 255, 256, 32767, 32768, 65535, 65536}
 
-// alternatives returns the alternative values of one leaf; thorough adds the expensive ones.
-func alternatives(t reflect.Type, field string, v V, thorough bool, types []datatype.DataType) []reflect.Value {
+// alternatives returns the alternative values of one leaf; lvl 0 = small domains (used for pairs and triples), 1 = adds 2^15-byte strings and ids, 2 = adds the 64 KiB ones.
+func alternatives(t reflect.Type, field string, v V, lvl int, types []datatype.DataType) []reflect.Value {
 	var out []reflect.Value
 	add := func(x interface{}) { out = append(out, reflect.ValueOf(x).Convert(t)) }
 	switch t {
@@ -552,7 +553,10 @@ func alternatives(t reflect.Type, field string, v V, thorough bool, types []data
 		for _, s := range stringAlts {
 			add(s)
 		}
-		if thorough {
+		if lvl >= 1 {
+			add(halfString) // 2^15 bytes: the [string] length is an unsigned short
+		}
+		if lvl >= 2 {
 			add(bigString)
 		}
 	case reflect.Bool:
@@ -577,7 +581,13 @@ func alternatives(t reflect.Type, field string, v V, thorough bool, types []data
 	case reflect.Slice:
 		if t.Elem().Kind() == reflect.Uint8 { // []byte
 			out = append(out, reflect.Zero(t), reflect.ValueOf([]byte{}).Convert(t), reflect.ValueOf([]byte{0}).Convert(t), reflect.ValueOf(Blob(300, 'z')).Convert(t), reflect.ValueOf(Blob(300, 'r')).Convert(t))
-			if thorough {
+			if lvl >= 1 && strings.HasSuffix(field, "Id") {
+				// [short bytes] notation: the length is an UNSIGNED short, so ids of 2^15 bytes and more are legal
+				for _, n := range []int{32767, 32768, 65535} {
+					out = append(out, reflect.ValueOf(Blob(n, 'r')).Convert(t))
+				}
+			}
+			if lvl >= 2 {
 				out = append(out, reflect.ValueOf(Blob(70000, 't')).Convert(t))
 			}
 		}
@@ -586,9 +596,9 @@ func alternatives(t reflect.Type, field string, v V, thorough bool, types []data
 }
 
 // walk collects single-field deviations below v (addressable), depth first in field order.
-func walk(v reflect.Value, path string, ver V, thorough bool, types []datatype.DataType, emit func(path string, set func(alt reflect.Value), alts []reflect.Value)) {
+func walk(v reflect.Value, path string, ver V, lvl int, types []datatype.DataType, emit func(path string, set func(alt reflect.Value), alts []reflect.Value)) {
 	t := v.Type()
-	if alts := alternatives(t, path, ver, thorough, types); alts != nil || t == tDataType || t == tSchemaType || t == tSchemaTarget || t == tTopo || t == tStatus || t == tRevision || t == tEventType {
+	if alts := alternatives(t, path, ver, lvl, types); alts != nil || t == tDataType || t == tSchemaType || t == tSchemaTarget || t == tTopo || t == tStatus || t == tRevision || t == tEventType {
 		if len(alts) > 0 {
 			emit(path, func(a reflect.Value) { v.Set(a) }, alts)
 		}
@@ -604,14 +614,14 @@ func walk(v reflect.Value, path string, ver V, thorough bool, types []datatype.D
 			return
 		}
 		emit(path+"=nil", func(a reflect.Value) { v.Set(a) }, []reflect.Value{reflect.Zero(t)})
-		walk(v.Elem(), path, ver, thorough, types, emit)
+		walk(v.Elem(), path, ver, lvl, types, emit)
 	case reflect.Interface:
 		if !v.IsNil() {
 			// walk the concrete value through a settable copy
 			c := reflect.New(v.Elem().Type()).Elem()
 			c.Set(v.Elem())
 			if c.Kind() == reflect.Ptr && !c.IsNil() {
-				walk(c.Elem(), path, ver, thorough, types, emit)
+				walk(c.Elem(), path, ver, lvl, types, emit)
 			}
 		}
 	case reflect.Struct:
@@ -619,7 +629,7 @@ func walk(v reflect.Value, path string, ver V, thorough bool, types []datatype.D
 			if t.Field(i).PkgPath != "" {
 				continue
 			}
-			walk(v.Field(i), path+"."+t.Field(i).Name, ver, thorough, types, emit)
+			walk(v.Field(i), path+"."+t.Field(i).Name, ver, lvl, types, emit)
 		}
 	case reflect.Slice:
 		// sizes: nil, empty, first element only, duplicated last element
@@ -649,7 +659,7 @@ func walk(v reflect.Value, path string, ver V, thorough bool, types []datatype.D
 		}
 		emit(path+"#len", func(a reflect.Value) { v.Set(a) }, alts)
 		for i := 0; i < v.Len() && i < 2; i++ {
-			walk(v.Index(i), fmt.Sprintf("%s[%d]", path, i), ver, thorough, types, emit)
+			walk(v.Index(i), fmt.Sprintf("%s[%d]", path, i), ver, lvl, types, emit)
 		}
 	case reflect.Map:
 		if v.IsNil() {
